@@ -89,6 +89,30 @@ func devFullUsable() bool {
 	return werr != nil
 }
 
+type temporaryError struct{}
+
+func (temporaryError) Error() string   { return "resource temporarily unavailable" }
+func (temporaryError) Temporary() bool { return true }
+func (temporaryError) Timeout() bool   { return false }
+
+// hiccupWriter: the first Write accepts half of the bytes and returns a temporary error; later Writes succeed.
+type hiccupWriter struct {
+	buf   bytes.Buffer
+	calls int
+	first int
+}
+
+func (w *hiccupWriter) Write(p []byte) (int, error) {
+	w.calls++
+	if w.calls == 1 {
+		n := len(p) / 2
+		w.first = n
+		w.buf.Write(p[:n])
+		return n, temporaryError{}
+	}
+	return w.buf.Write(p)
+}
+
 type writerFault struct {
 	name    string
 	failAt  int
@@ -250,6 +274,17 @@ func check(c Case) error {
 			if want, ok := fragRef(tg.code()); ok && !bytes.Equal(want, okw.buf.Bytes()) {
 				return fmt.Errorf("%s: success reported, the writer received %q, but gofmt of the raw rendering of the same code is %q", tg.name, okw.buf.Bytes(), want)
 			}
+		}
+		if okErr == nil && len(okw.buf.Bytes()) > 1 {
+			// a writer that accepts part of what it is handed and reports a temporary error (EINTR / EAGAIN
+			// style), and works from then on: the caller gets the error, or — if the library retries — the
+			// writer ends up with exactly the output
+			hw := &hiccupWriter{}
+			err := tg.render(hw)
+			if err == nil && !bytes.Equal(hw.buf.Bytes(), okw.buf.Bytes()) {
+				return fmt.Errorf("%s into a writer whose first Write took %d bytes and reported a temporary error: the call returned nil, the writer holds %q, the output is %q", tg.name, hw.first, hw.buf.Bytes(), okw.buf.Bytes())
+			}
+			cell(entry, "partial write + temporary error, then healthy", true)
 		}
 		if okErr == nil {
 			bw := &busyWriter{}
